@@ -420,7 +420,8 @@ get_call_str(const string &container, const vector_string &pexprs) const {
     CPPType *param_type = _parameters[_first_true_parameter]._remap->get_orig_type();
     CPPArrayType *array_type = param_type->as_array_type();
     if (array_type != nullptr) {
-      call << "std::copy(" << expr << ", " << expr << " + " << *array_type->_bounds << ", ";
+      // The elements are copied from the value passed in into the array.
+      call << "std::copy_n(";
       paren_close = true;
     }
     else if (TypeManager::is_pointer_to_PyObject(param_type)) {
@@ -434,6 +435,9 @@ get_call_str(const string &container, const vector_string &pexprs) const {
     _parameters[_first_true_parameter]._remap->pass_parameter(call,
                     get_parameter_expr(_first_true_parameter, pexprs));
 
+    if (array_type != nullptr) {
+      call << ", " << *array_type->_bounds << ", " << expr;
+    }
     if (paren_close) {
       call << ')';
     }
